@@ -15,6 +15,9 @@ pub enum Wr {
     Versioned { k: usize, delta: i32 },
     /// the same through db_ops::set_key_value, whose reply names the stored value
     Api { k: usize, delta: i32 },
+    /// `resolve <op id> <db> <key> <version> <value>` sent by the client (an arbiter's answer; this database has no
+    /// arbiter): it may be refused, or be a write like the others; what it must not do is spoil the writes that follow
+    Resolve { k: usize, delta: i32, big_id: bool },
 }
 
 #[derive(Clone, Debug, Serialize, Deserialize)]
@@ -41,7 +44,7 @@ fn wr_strategy(api: bool) -> BoxedStrategy<Wr> {
     let k = prop_oneof![3 => Just(0usize), 1 => Just(1usize)];
     let delta = select(vec![-5, -2, -1, 0, 0, 1, 3]);
     if api {
-        prop_oneof![2 => k.clone().prop_map(|k| Wr::Plain { k }), 5 => (k.clone(), delta.clone()).prop_map(|(k, delta)| Wr::Versioned { k, delta }), 3 => (k, delta).prop_map(|(k, delta)| Wr::Api { k, delta })].boxed()
+        prop_oneof![2 => k.clone().prop_map(|k| Wr::Plain { k }), 5 => (k.clone(), delta.clone()).prop_map(|(k, delta)| Wr::Versioned { k, delta }), 3 => (k.clone(), delta.clone()).prop_map(|(k, delta)| Wr::Api { k, delta }), 1 => (k, delta, any::<bool>()).prop_map(|(k, delta, big_id)| Wr::Resolve { k, delta, big_id })].boxed()
     } else {
         prop_oneof![2 => k.clone().prop_map(|k| Wr::Plain { k }), 5 => (k, delta).prop_map(|(k, delta)| Wr::Versioned { k, delta })].boxed()
     }
@@ -102,10 +105,31 @@ pub fn run_seq(ctx: &Ctx, case: &Case) -> Outcome {
     let mut fail = None;
     for (i, wr) in case.writes.iter().enumerate() {
         let value = format!("v{}", i);
+        if let Wr::Resolve { k, delta, big_id } = wr {
+            let key = KEYS[*k];
+            let before = stored(&node, &db, key);
+            let cur = before.as_ref().map(|b| b.1).unwrap_or(0);
+            let line = format!("resolve {} {} {} {} {}", if *big_id { "18446744073709551615" } else { "7" }, db, key, (cur + delta).max(0), value);
+            let (r, _) = s.send(&node, &line);
+            node.pump();
+            let after = stored(&node, &db, key);
+            if is_refusal(&r) {
+                if after != before {
+                    fail = Some(("C19|refused-resolve-changed-the-key".to_string(), format!("write {} {:?}: refused ({}) but {:?} -> {:?}", i, line, resp_text(&r), before, after)));
+                    break;
+                }
+            } else if after.as_ref().map(|a| a.0.as_str()) != Some(value.as_str()) {
+                fail = Some(("C19|accepted-resolve-not-stored".to_string(), format!("write {} {:?} answered ok, stored afterwards {:?}", i, line, after)));
+                break;
+            }
+            w.drain();
+            continue;
+        }
         let (k, delta, api) = match wr {
             Wr::Plain { k } => (*k, None, false),
             Wr::Versioned { k, delta } => (*k, Some(*delta), false),
             Wr::Api { k, delta } => (*k, Some(*delta), true),
+            Wr::Resolve { .. } => unreachable!(),
         };
         let key = KEYS[k];
         let before = stored(&node, &db, key);
@@ -220,7 +244,7 @@ pub fn run_conc(ctx: &Ctx, case: &CCase) -> Result<Outcome, String> {
                 let value = format!("c{}w{}", ci, oi);
                 let (k, delta) = match wr {
                     Wr::Plain { k } => (*k, None),
-                    Wr::Versioned { k, delta } | Wr::Api { k, delta } => (*k, Some(*delta)),
+                    Wr::Versioned { k, delta } | Wr::Api { k, delta } | Wr::Resolve { k, delta, .. } => (*k, Some(*delta)),
                 };
                 let cur = dbs.map.read().unwrap().get(&dbn).and_then(|d| d.map.read().unwrap().get(KEYS[k]).map(|v| v.version)).unwrap_or(0);
                 let line = match delta {
@@ -363,7 +387,7 @@ pub fn run_repl(ctx: &Ctx, case: &RCase) -> Outcome {
         for (i, wr) in case.writes.iter().enumerate() {
             let (k, delta) = match wr {
                 Wr::Plain { k } => (*k, None),
-                Wr::Versioned { k, delta } | Wr::Api { k, delta } => (*k, Some(*delta)),
+                Wr::Versioned { k, delta } | Wr::Api { k, delta } | Wr::Resolve { k, delta, .. } => (*k, Some(*delta)),
             };
             let key = KEYS[k];
             let cur = c.nodes[0].node.as_ref().unwrap().dump().get("c").and_then(|m| m.get(key).map(|v| v.1)).unwrap_or(0);
